@@ -34,9 +34,10 @@ Proof.
   unfold should_check_if_patch_is_reversed. destruct L as [L1 L2]. rewrite L1, Hf.
   rewrite (looks_reversed_cond o p1 f h (conj L1 L2)).
   unfold handle_probably_reversed_patch, check_how_to_handle_reversed_patch. rewrite Hi. cbn [negb rbind fst snd].
+  unfold with_patch.
   match goal with |- context [apply_one o p1 f 0 ?s0 h ?loc] => destruct (apply_one o p1 f 0 s0 h loc) as [s1|e] eqn:E1 end; cbn [rbind]; [|discriminate].
   destruct (apply_rest o p1 f 1 s1 hs) as [s2|e] eqn:E2; cbn [rbind]; [|discriminate].
-  intros [= <-]. cbn [r_out r_failed r_skipped].
+  intros [= <-]. cbn [r_out r_failed r_skipped fst snd].
   apply (apply_one_cases _ _ _ _ _ _ _ _ Hd) in E1. cbn [a_skip] in E1.
   destruct E1 as [(l & _ & Hk & _)|[_ R]]; [discriminate|].
   destruct R as (Ro & Rln & Rrj & Rsk & Roff & h' & Rh & Rb). cbn in Ro, Rln, Rrj, Rsk.
@@ -50,12 +51,13 @@ Theorem reapply_reversed o p A B h hs :
   (0 <= max_fuzz o)%Z ->
   hunks (effective o p) = h :: hs ->
   Conforming A B (hunks (effective o p)) -> (Z.of_nat (length B) < MAXZ)%Z ->
-  creates_file (effective o p) = false ->
+  creation_guard (reverse_patch (effective o p)) B ->
   loc_perfect (first_loc o (effective o p) B h) = false ->
-  exists r, apply_patch o B p = Ok r /\ r_out r = A /\ r_failed r = 0 /\ r_rej r = [] /\ r_skipped r = false.
+  exists r, apply_patch o B p = Ok r /\ r_out r = A /\ r_failed r = 0 /\ r_rej r = [] /\ r_skipped r = false /\
+            exists hs', r_patch r = set_hunks (reverse_patch (effective o p)) hs'.
 Proof.
-  intros Hd Hv Hf Hi Hb HF Hh HC Hmax Hcr L1. unfold apply_patch. fold (effective o p). set (p1 := effective o p) in *.
-  assert (Hk : creation_guard p1 B) by (intros E; congruence).
+  intros Hd Hv Hf Hi Hb HF Hh HC Hmax Hk L1. unfold apply_patch. fold (effective o p). set (p1 := effective o p) in *.
+  set (rp := reverse_patch p1) in *.
   rewrite Hh in HC. apply conforming_reverse in HC. cbn [map] in HC.
   rewrite Hh. cbn [apply_first a_offerr a_ln].
   fold (first_loc o p1 B h). fold (first_rloc o B h).
@@ -72,18 +74,18 @@ Proof.
   unfold handle_probably_reversed_patch, check_how_to_handle_reversed_patch. rewrite Hi, Hb. cbn [negb rbind fst snd].
   set (s0 := mkAS _ _ _ _ _ _ _ _ _ _).
   (* the reverse branch is the plain loop over the reversed hunks *)
-  assert (Eq : (do s' <- apply_one o p1 Bv 0 s0 (reverse_hunk h) (Some (mkLoc (length gap) 0 0)); apply_rest o p1 Bv 1 s' (map reverse_hunk hs))
-               = apply_rest o p1 Bv 0 s0 (reverse_hunk h :: map reverse_hunk hs)).
+  assert (Eq : (do s' <- apply_one o rp Bv 0 s0 (reverse_hunk h) (Some (mkLoc (length gap) 0 0)); apply_rest o rp Bv 1 s' (map reverse_hunk hs))
+               = apply_rest o rp Bv 0 s0 (reverse_hunk h :: map reverse_hunk hs)).
   { cbn [apply_rest].
-    replace (locate_for p1 Bv (reverse_hunk h) (ignore_whitespace o) (a_offerr s0) (max_fuzz o) (a_ln s0)) with (Some (mkLoc (length gap) 0 0)); [reflexivity|].
-    rewrite (locate_for_guard p1 Bv _ _ _ _ _ Hk). symmetry. exact Er. }
-  rewrite Eq.
-  destruct (apply_rest_conf o p1 Hd Hv HF _ 0 0 Bv Av [] s0 0 Bv HC eq_refl eq_refl Hmax Hk eq_refl eq_refl eq_refl)
+    replace (locate_for rp Bv (reverse_hunk h) (ignore_whitespace o) (a_offerr s0) (max_fuzz o) (a_ln s0)) with (Some (mkLoc (length gap) 0 0)); [reflexivity|].
+    rewrite (locate_for_guard rp Bv _ _ _ _ _ Hk). symmetry. exact Er. }
+  fold rp. rewrite Eq.
+  destruct (apply_rest_conf o rp Hd Hv HF _ 0 0 Bv Av [] s0 0 Bv HC eq_refl eq_refl Hmax Hk eq_refl eq_refl eq_refl)
     as (s' & Es & Ho & H1 & H2 & H3 & H4 & H5).
-  rewrite Es. cbn [rbind]. eexists. split; [reflexivity|]. cbn [r_out r_failed r_rej r_skipped].
-  unfold s0 in *. cbn in Ho, H1, H2. auto.
+  unfold with_patch. rewrite Es. cbn [rbind]. eexists. split; [reflexivity|]. cbn [r_out r_failed r_rej r_skipped r_patch fst snd].
+  unfold s0 in *. cbn in Ho, H1, H2. repeat split; auto. eexists. reflexivity.
 Qed.
 
 (* -f : no guess is made; every hunk is located and applied or rejected on its own *)
-Theorem force_no_guess o p f s hs : force o = true -> apply_first o p f s hs = apply_rest o p f 0 s hs.
+Theorem force_no_guess o p f s hs : force o = true -> apply_first o p f s hs = with_patch p (apply_rest o p f 0 s hs).
 Proof. apply apply_first_force. Qed.
